@@ -143,6 +143,7 @@ type c19Case struct {
 	del    bool
 	child  bool
 	snapID restic.ID
+	dup    []bool
 	labels []string
 }
 
@@ -365,6 +366,64 @@ func streamC19(h *H) {
 					c.ow = []string{"if-changed", "if-newer"}[h.Intn(2)]
 					c.labels = append(c.labels[:0], "family-mtime-boundary", "pre-samesize-different")
 				}
+			case 2:
+				// family "repeated chunk, truncated copy": the same non-zero blob several times; the
+				// existing file is a copy cut at the start of / inside a repeated chunk
+				x := rndNZ(4 + h.Intn(40))
+				reps := 2 + h.Intn(3)
+				c.parts = nil
+				if h.Intn(3) == 0 {
+					c.parts = append(c.parts, rndNZ(1+h.Intn(10)))
+				}
+				for r := 0; r < reps; r++ {
+					c.parts = append(c.parts, append([]byte(nil), x...))
+				}
+				if h.Intn(3) == 0 {
+					c.parts = append(c.parts, rndNZ(1+h.Intn(10)))
+				}
+				content = c19Concat(c.parts)
+				c.size = nil
+				first := 0
+				if len(c.parts[0]) != len(x) || !bytes.Equal(c.parts[0], x) {
+					first = len(c.parts[0])
+				}
+				// cut position: inside or at the start of the 2nd..last copy
+				cut := first + len(x)*(1+h.Intn(reps-1)) + h.Intn(len(x))
+				if h.Intn(3) == 0 {
+					cut = first + len(x)*(1+h.Intn(reps-1))
+				}
+				c.pre = c19Pre{kind: "reg", data: append([]byte(nil), content[:cut]...), perm: 0600, links: 1,
+					mtimeRel: c19MtimeRels[h.Intn(len(c19MtimeRels))]}
+				c.ow = []string{"always", "if-changed"}[h.Intn(2)]
+				c.labels = []string{"family-repeated-blob-truncated", "pre-shorter"}
+			case 3:
+				// family "blob stored in two packs": B (and C) are stored by an earlier session; this
+				// file's session stores a second copy of B next to a new blob A. The file is [A, B] or
+				// [C, B]: one blob from each pack, whichever copy of B the index lists first.
+				bB := rndNZ(8 + h.Intn(20))
+				bC := rndNZ(8 + h.Intn(20))
+				bA := rndNZ(8 + h.Intn(20))
+				_, _ = vSaveSnapshot(repo, []*vNode{{Name: "pre", Type: data.NodeTypeFile, Parts: [][]byte{bB, bC}}})
+				if h.Bool() {
+					c.parts = [][]byte{bA, bB}
+				} else {
+					c.parts = [][]byte{bC, bB}
+				}
+				c.dup = []bool{false, true}
+				if h.Intn(3) == 0 { // a longer file around it
+					c.parts = append(c.parts, rndNZ(5))
+					c.dup = append(c.dup, false)
+				}
+				content = c19Concat(c.parts)
+				c.size = nil
+				if c.pre.kind == "reg" {
+					c.pre.data = rndNZ(len(content))
+					c.pre.links = 1
+				}
+				if c.ow == "never" || c.ow == "if-newer" {
+					c.ow = "always"
+				}
+				c.labels = []string{"family-blob-in-two-packs", "pre-" + c.pre.kind}
 			}
 			if c.pre.mtimeRel != 0 && c.pre.mtimeRel > -1e9 && c.pre.mtimeRel < 1e9 {
 				c.labels = append(c.labels, "mtime-subsecond-apart")
@@ -375,7 +434,7 @@ func streamC19(h *H) {
 				c.child = false
 			}
 			anyChild = anyChild || c.child
-			node := &vNode{Name: "f", Type: data.NodeTypeFile, Parts: c.parts, Size: c.size, MTime: c19NodeMtime}
+			node := &vNode{Name: "f", Type: data.NodeTypeFile, Parts: c.parts, Size: c.size, MTime: c19NodeMtime, DupPart: c.dup}
 			_, c.snapID = vSaveSnapshot(repo, []*vNode{node})
 			cases = append(cases, c)
 		}
